@@ -93,8 +93,8 @@ func C01(c *run.Check) {
 			}
 		}
 	}
-	c.Rule = fmt.Sprintf("all ordered forests with <=%d non-attribute nodes over names {a,b} and leaf kinds {elem,text,comment,PI} x decorations D0-D3 (attributes, namespaces), built through a scripted Parser into the real store; EVERY node of every document (root, element, attribute, namespace, text, comment, PI) as context node x %d single steps/abbreviations + %d absolute-path placements + %d two-step paths; implementation result compared by node identity with the reference evaluator; non-trivial = distinct (expression, context kind, non-empty result size)", n, len(singles), len(abs), len(two))
-	decos := []int{adoc.D0, adoc.D1, adoc.D2, adoc.D3}
+	c.Rule = fmt.Sprintf("all ordered forests with <=%d non-attribute nodes over names {a,b} and leaf kinds {elem,text,comment,PI} x decorations D0-D3, D5 (attributes, namespaces declared/overridden/merely inherited by plain empty elements), built through a scripted Parser into the real store; EVERY node of every document (root, element, attribute, namespace, text, comment, PI) as context node x %d single steps/abbreviations + %d absolute-path placements + %d two-step paths; implementation result compared by node identity with the reference evaluator; non-trivial = distinct (expression, context kind, non-empty result size)", n, len(singles), len(abs), len(two))
+	decos := []int{adoc.D0, adoc.D1, adoc.D2, adoc.D3, adoc.D5}
 	r := newXRunner(c, "C01", c01Env)
 	type job struct {
 		f    []*adoc.Tm
@@ -104,7 +104,7 @@ func C01(c *run.Check) {
 	for _, f := range shapes {
 		for _, d := range decos {
 			// quick: the largest shapes only undecorated and with namespaces (D3)
-			if c.Quick() && treeSize(f) == n && d != adoc.D0 && d != adoc.D3 {
+			if c.Quick() && treeSize(f) == n && d != adoc.D0 && d != adoc.D3 && d != adoc.D5 {
 				continue
 			}
 			jobs = append(jobs, job{f, d})
